@@ -65,9 +65,23 @@ def model_check(v, tier):
         return w, vlib.run_tlc("HttpSessMC", "wit.cfg", workdir=wdir(), extra_files={"wit.cfg": txt}, workers=1,
                                timeout=600, heap_gb=2)
 
+    def apa():
+        # unbounded in the length of histories: Apalache discharges the inductive invariant HttpSess!IndInv (the seven state
+        # invariants of the HttpSess_mc_*.cfg configurations + the shape of table entries and slots) for 3 ids, 3 slow POSTs,
+        # 2 parked DELETEs, ANY timeout T (0 = none), stateless or not, every subset of the store fault modes
+        # (spec/HttpSessInd.tla: CInit, IndInit).  Base 14 s + step 6 min (17 min on a loaded machine): thorough tier and only
+        # on request (VERIF_APALACHE_SLOW=1).  Proved by hand on 2026-09-25.
+        return vlib.run_apalache_inductive("HttpSessInd", "CInit", "IndInit", "IndInv", timeout=1500)
+
     with ThreadPoolExecutor(max_workers=6) as ex:
+        fapa = ex.submit(apa) if tier != "quick" and os.environ.get("VERIF_APALACHE_SLOW") else None
         mcs = list(ex.map(mc, jobs))
         wits = list(ex.map(wit, WITNESSES))
+        ra = fapa.result() if fapa else None
+    if ra:
+        v.cov.setdefault("apalache_inductive", []).append(ra)
+        if ra["status"] == "refuted":
+            raise vlib.MachineryError("HttpSess: IndInv is not inductive (%s)" % ra.get("detail"))
     for cfg, res in mcs:
         vlib.tlc_must_pass(res, cfg)
         v.add_tlc(cfg, res)
